@@ -235,18 +235,27 @@ impl XmlReader {
         doc: &mut RustDocument,
         child: Node<'n, 'n>,
     ) -> Result<(), WriterError> {
-        let schema = child
+        let mut schemas = child
             .children()
-            .find(|n| n.tag_name().name() == "schema")
-            .ok_or(WriterError::SchemaNotFound)?;
-
-        // the inline schema has a target namespace of its own; messages, port types and bindings that follow belong to
-        // the namespace of the definitions element again
-        let definitions_namespace = doc.current_target_namespace.clone();
-        if let Some(target_namespace) = schema.attribute("targetNamespace") {
-            doc.switch_to_target_namespace(target_namespace);
+            .filter(|n| n.is_element() && n.tag_name().name() == "schema")
+            .peekable();
+        if schemas.peek().is_none() {
+            return Err(WriterError::SchemaNotFound);
         }
-        let result = Self::read_xsd(schema, files, doc);
+
+        // every inline schema has a target namespace of its own; messages, port types and bindings that follow belong
+        // to the namespace of the definitions element again
+        let definitions_namespace = doc.current_target_namespace.clone();
+        let mut result = Ok(());
+        for schema in schemas {
+            if let Some(target_namespace) = schema.attribute("targetNamespace") {
+                doc.switch_to_target_namespace(target_namespace);
+            }
+            result = Self::read_xsd(schema, files, doc);
+            if result.is_err() {
+                break;
+            }
+        }
         if let Some(namespace) = definitions_namespace {
             doc.switch_to_target_namespace(&namespace.namespace);
         }
